@@ -8,8 +8,16 @@
    after its end.  This file works on that description ("items" with positions); Proofs/LingoNestExec.v shows
    that running compiled code produces exactly such a list.
 
+   A  repeat while  loop arrives as one statement  Stmt pe (Repeat ps pe TRUE body "while" ...)  built by the
+   backward-jump opcode from the statements at or after the loop start: its body is the conditional jump of the
+   loop condition (target pe + 2, past the loop) followed by the flat list of the loop body.  condition_detect
+   turns that jump into  if not cond then exit repeat  and rebuilds the ifs of the body (with the loop end as
+   limit); loop_detect recognises the leading exit-if as the while condition.
+
    Everything is stated for a loop-end parameter [e] (None outside a loop) under the hypothesis that no jump of
-   the list leaves the loop (targets <= e): then the exit-repeat branches of the passes are never taken. *)
+   the list leaves the loop (targets <= e): then the exit-repeat branches of the passes are never taken.
+   Loops carry a flag: [done] loops are already in the form condition_detect gives them (the pass converts all
+   loops of a list before it looks at the ifs, and then recurses on sublists that contain converted loops). *)
 From Coq Require Import ZArith List Bool String Lia.
 From DRX Require Import Py.PyBytes Py.PyString Model.LingoAst Model.LingoGen Model.LingoOps Model.LingoLoop Proofs.LingoStmtFacts.
 Import ListNotations.
@@ -19,7 +27,24 @@ Open Scope Z_scope.
 Inductive item :=
 | IPlain (st : node)
 | IIf (p : Z) (cond : node) (addr : Z) (body : list item)
-| IIfE (p : Z) (cond : node) (eb : Z) (body : list item) (jp je : Z) (ebody : list item).
+| IIfE (p : Z) (cond : node) (eb : Z) (body : list item) (jp je : Z) (ebody : list item)
+| IWhile (done : bool) (ps pj : Z) (cond : node) (pe : Z) (body : list item).
+
+Definition true_at (ps : Z) : node := Leaf KConst "TRUE" ps true.
+Definition exit_if (pj : Z) (c : node) : node := Stmt pj (IfThen pj (Unary "not" pj c) [Stmt pj (ExitRepeat pj)] []).
+Definition loop_stmt (ps pe : Z) (c : node) (body : list node) : node :=
+  Stmt pe (Repeat ps pe c body "while" None None "" "").
+
+(* after condition_detect *)
+Fixpoint tree_i (i : item) : node :=
+  let tr := fix tr (l : list item) : list node := match l with [] => [] | x :: r => tree_i x :: tr r end in
+  match i with
+  | IPlain st => st
+  | IIf p c a body => Stmt p (IfThen p c (tr body) [])
+  | IIfE p c eb body jp je ebody => Stmt p (IfThen p c (tr body) (tr ebody))
+  | IWhile _ ps pj c pe body => loop_stmt ps pe (true_at ps) (exit_if pj c :: tr body)
+  end.
+Fixpoint trees (l : list item) : list node := match l with [] => [] | x :: r => tree_i x :: trees r end.
 
 Fixpoint flat_i (i : item) : list node :=
   let fl := fix fl (l : list item) : list node := match l with [] => [] | x :: r => flat_i x ++ fl r end in
@@ -27,17 +52,21 @@ Fixpoint flat_i (i : item) : list node :=
   | IPlain st => [st]
   | IIf p c a body => Stmt p (Jz p c a) :: fl body
   | IIfE p c eb body jp je ebody => Stmt p (Jz p c eb) :: fl body ++ Stmt jp (Jump jp je) :: fl ebody
+  | IWhile done ps pj c pe body =>
+    [loop_stmt ps pe (true_at ps) (if done then exit_if pj c :: trees body else Stmt pj (Jz pj c (pe + 2)) :: fl body)]
   end.
 Fixpoint flats (l : list item) : list node := match l with [] => [] | x :: r => flat_i x ++ flats r end.
 
-Fixpoint tree_i (i : item) : node :=
-  let tr := fix tr (l : list item) : list node := match l with [] => [] | x :: r => tree_i x :: tr r end in
+(* after loop_detect *)
+Fixpoint fin_i (i : item) : node :=
+  let fn := fix fn (l : list item) : list node := match l with [] => [] | x :: r => fin_i x :: fn r end in
   match i with
   | IPlain st => st
-  | IIf p c a body => Stmt p (IfThen p c (tr body) [])
-  | IIfE p c eb body jp je ebody => Stmt p (IfThen p c (tr body) (tr ebody))
+  | IIf p c a body => Stmt p (IfThen p c (fn body) [])
+  | IIfE p c eb body jp je ebody => Stmt p (IfThen p c (fn body) (fn ebody))
+  | IWhile _ ps pj c pe body => loop_stmt ps pe c (fn body)
   end.
-Fixpoint trees (l : list item) : list node := match l with [] => [] | x :: r => tree_i x :: trees r end.
+Fixpoint fins (l : list item) : list node := match l with [] => [] | x :: r => fin_i x :: fins r end.
 
 Fixpoint depth_i (i : item) : nat :=
   let d := fix d (l : list item) : nat := match l with [] => O | x :: r => Nat.max (depth_i x) (d r) end in
@@ -45,6 +74,7 @@ Fixpoint depth_i (i : item) : nat :=
   | IPlain _ => O
   | IIf _ _ _ body => S (d body)
   | IIfE _ _ _ body _ _ ebody => S (Nat.max (d body) (d ebody))
+  | IWhile _ _ _ _ _ body => S (d body)
   end.
 Fixpoint depths (l : list item) : nat := match l with [] => O | x :: r => Nat.max (depth_i x) (depths r) end.
 
@@ -61,11 +91,34 @@ Lemma depth_if p c a body : depth_i (IIf p c a body) = S (depths body).
 Proof. reflexivity. Qed.
 Lemma depth_ife p c eb body jp je ebody : depth_i (IIfE p c eb body jp je ebody) = S (Nat.max (depths body) (depths ebody)).
 Proof. reflexivity. Qed.
+Lemma flat_while done ps pj c pe body :
+  flat_i (IWhile done ps pj c pe body) =
+  [loop_stmt ps pe (true_at ps) (if done then exit_if pj c :: trees body else Stmt pj (Jz pj c (pe + 2)) :: flats body)].
+Proof. reflexivity. Qed.
+Lemma tree_while done ps pj c pe body : tree_i (IWhile done ps pj c pe body) = loop_stmt ps pe (true_at ps) (exit_if pj c :: trees body).
+Proof. reflexivity. Qed.
+Lemma fin_if p c a body : fin_i (IIf p c a body) = Stmt p (IfThen p c (fins body) []).
+Proof. reflexivity. Qed.
+Lemma fin_ife p c eb body jp je ebody : fin_i (IIfE p c eb body jp je ebody) = Stmt p (IfThen p c (fins body) (fins ebody)).
+Proof. reflexivity. Qed.
+Lemma fin_while done ps pj c pe body : fin_i (IWhile done ps pj c pe body) = loop_stmt ps pe c (fins body).
+Proof. reflexivity. Qed.
+Lemma depth_while done ps pj c pe body : depth_i (IWhile done ps pj c pe body) = S (depths body).
+Proof. reflexivity. Qed.
 Lemma depths_cons x r : depths (x :: r) = Nat.max (depth_i x) (depths r). Proof. reflexivity. Qed.
 Lemma flats_app l1 l2 : flats (l1 ++ l2) = flats l1 ++ flats l2.
 Proof. induction l1 as [|x r IH]; [reflexivity|]. cbn [app flats]. rewrite IH, app_assoc. reflexivity. Qed.
 Lemma trees_app l1 l2 : trees (l1 ++ l2) = trees l1 ++ trees l2.
 Proof. induction l1 as [|x r IH]; [reflexivity|]. cbn [app trees]. rewrite IH. reflexivity. Qed.
+Lemma fins_app l1 l2 : fins (l1 ++ l2) = fins l1 ++ fins l2.
+Proof. induction l1 as [|x r IH]; [reflexivity|]. cbn [app fins]. rewrite IH. reflexivity. Qed.
+
+(* a loop condition that loop_detect cannot take for a counting loop or a list loop *)
+Definition wcond_ok (c : node) : bool :=
+  match c with
+  | Binary cn _ cl _ => negb (String.eqb cn "lte") && negb (String.eqb cn "gte") && negb (is_const cl)
+  | _ => true
+  end.
 
 (* well-positioned item lists: plain statements are assignments or calls, positions increase, a body lies strictly
    between its jump and its end, bodies are not empty *)
@@ -75,7 +128,10 @@ Inductive wp : Z -> Z -> list item -> Prop :=
 | wp_if lo hi p c a body r : lo <= p -> body <> [] -> wp (p + 1) a body -> wp a hi r -> wp lo hi (IIf p c a body :: r)
 | wp_ife lo hi p c eb body jp je ebody r :
     lo <= p -> body <> [] -> ebody <> [] -> wp (p + 1) jp body -> jp < eb -> wp eb je ebody -> wp je hi r ->
-    wp lo hi (IIfE p c eb body jp je ebody :: r).
+    wp lo hi (IIfE p c eb body jp je ebody :: r)
+| wp_while lo hi done ps pj c pe body r :
+    lo <= ps -> ps <= pj -> wcond_ok c = true -> wp (pj + 1) pe body -> wp (pe + 1) hi r ->
+    wp lo hi (IWhile done ps pj c pe body :: r).
 
 Lemma wp_le lo hi l : wp lo hi l -> lo <= hi.
 Proof. induction 1; lia. Qed.
@@ -87,21 +143,25 @@ Proof.
   - apply wp_plain; [assumption | lia | assumption].
   - apply wp_if; [lia | assumption | assumption | assumption].
   - apply wp_ife; try assumption. lia.
+  - apply wp_while; try assumption. lia.
 Qed.
 Lemma wp_app lo mid hi l1 l2 : wp lo mid l1 -> wp mid hi l2 -> wp lo hi (l1 ++ l2).
 Proof.
   induction 1 as [lo mid H | lo mid st r Hp Hlo Hr IH | lo mid p c a body r Hlo Hne Hb _ Hr IHr
-                 | lo mid p c eb body jp je ebody r Hlo Hne Hne' Hb _ Hj He _ Hr IHr]; intros Hl2; cbn [app].
+                 | lo mid p c eb body jp je ebody r Hlo Hne Hne' Hb _ Hj He _ Hr IHr
+                 | lo mid done ps pj c pe body r Hlo Hpj Hc Hb _ Hr IHr]; intros Hl2; cbn [app].
   - apply (wp_lower mid lo hi l2 Hl2). assumption.
   - apply wp_plain; [assumption | assumption | apply IH; exact Hl2].
   - apply wp_if; try assumption. apply IHr. exact Hl2.
   - apply wp_ife; try assumption. apply IHr. exact Hl2.
+  - apply wp_while; try assumption. apply IHr. exact Hl2.
 Qed.
 
 (* ---- shapes of the statements involved ---- *)
 Definition st_ok (st : node) : bool :=
   match st with
-  | Stmt _ (Binary _ _ _ _) | Stmt _ (Call _ _ _ _ _ _) | Stmt _ (Jz _ _ _) | Stmt _ (IfThen _ _ _ _) | Stmt _ (Jump _ _) => true
+  | Stmt _ (Binary _ _ _ _) | Stmt _ (Call _ _ _ _ _ _) | Stmt _ (Jz _ _ _) | Stmt _ (IfThen _ _ _ _) | Stmt _ (Jump _ _)
+  | Stmt _ (Repeat _ _ _ _ _ _ _ _ _) => true
   | _ => false
   end.
 (* not an unconditional jump *)
@@ -158,7 +218,8 @@ Proof. intros H ? ?. eapply Forall_impl; [|exact H]. intros x Hx. eapply within_
 Lemma flats_within lo hi l : wp lo hi l -> Forall (within lo hi) (flats l).
 Proof.
   induction 1 as [lo hi H | lo hi st r Hp Hlo Hr IH | lo hi p c a body r Hlo Hne Hb IHb Hr IHr
-                 | lo hi p c eb body jp je ebody r Hlo Hne Hne' Hb IHb Hj He IHe Hr IHr].
+                 | lo hi p c eb body jp je ebody r Hlo Hne Hne' Hb IHb Hj He IHe Hr IHr
+                 | lo hi done ps pj c pe body r Hlo Hpj Hc Hb IHb Hr IHr].
   - constructor.
   - cbn [flats flat_i app]. pose proof (wp_le _ _ _ Hr). constructor; [apply within_plain; [exact Hp | lia]|].
     apply (Forall_within_weaken _ _ _ _ _ IH); lia.
@@ -172,12 +233,15 @@ Proof.
     + cbn [app]. constructor; [repeat split; cbn [pos_of jump_le]; lia|]. apply Forall_app. split.
       * apply (Forall_within_weaken _ _ _ _ _ IHe); lia.
       * apply (Forall_within_weaken _ _ _ _ _ IHr); lia.
+  - cbn [flats]. rewrite flat_while. pose proof (wp_le _ _ _ Hb). pose proof (wp_le _ _ _ Hr).
+    cbn [app]. constructor; [repeat split; cbn [pos_of loop_stmt]; lia|]. apply (Forall_within_weaken _ _ _ _ _ IHr); lia.
 Qed.
 
 Lemma trees_within lo hi l : wp lo hi l -> Forall (within lo hi) (trees l).
 Proof.
   induction 1 as [lo hi H | lo hi st r Hp Hlo Hr IH | lo hi p c a body r Hlo Hne Hb IHb Hr IHr
-                 | lo hi p c eb body jp je ebody r Hlo Hne Hne' Hb IHb Hj He IHe Hr IHr].
+                 | lo hi p c eb body jp je ebody r Hlo Hne Hne' Hb IHb Hj He IHe Hr IHr
+                 | lo hi done ps pj c pe body r Hlo Hpj Hc Hb IHb Hr IHr].
   - constructor.
   - cbn [trees tree_i]. pose proof (wp_le _ _ _ Hr). constructor; [apply within_plain; [exact Hp | lia]|].
     apply (Forall_within_weaken _ _ _ _ _ IH); lia.
@@ -185,6 +249,8 @@ Proof.
     constructor; [repeat split; cbn [pos_of]; lia|]. apply (Forall_within_weaken _ _ _ _ _ IHr); lia.
   - cbn [trees]. rewrite tree_ife. pose proof (wp_le _ _ _ Hb). pose proof (wp_le _ _ _ He). pose proof (wp_le _ _ _ Hr).
     constructor; [repeat split; cbn [pos_of]; lia|]. apply (Forall_within_weaken _ _ _ _ _ IHr); lia.
+  - cbn [trees]. rewrite tree_while. pose proof (wp_le _ _ _ Hb). pose proof (wp_le _ _ _ Hr).
+    constructor; [repeat split; cbn [pos_of loop_stmt]; lia|]. apply (Forall_within_weaken _ _ _ _ _ IHr); lia.
 Qed.
 
 Lemma within_not_jz lo hi p st : within lo hi st -> p < lo \/ hi <= p -> not_jz_at p st = true.
@@ -209,7 +275,8 @@ Definition noj_opt (o : option node) : Prop := match o with Some st => noj st = 
 Lemma flats_last_noj lo hi l : wp lo hi l -> noj_opt (lastn (flats l)).
 Proof.
   induction 1 as [lo hi H | lo hi st r Hp Hlo Hr IH | lo hi p c a body r Hlo Hne Hb IHb Hr IHr
-                 | lo hi p c eb body jp je ebody r Hlo Hne Hne' Hb IHb Hj He IHe Hr IHr].
+                 | lo hi p c eb body jp je ebody r Hlo Hne Hne' Hb IHb Hj He IHe Hr IHr
+                 | lo hi done ps pj c pe body r Hlo Hpj Hc Hb IHb Hr IHr].
   - exact I.
   - cbn [flats flat_i app]. rewrite lastn_cons. destruct (lastn (flats r)); [exact IH | apply plain_noj; exact Hp].
   - cbn [flats]. rewrite flat_if. cbn [app]. rewrite lastn_cons, lastn_app.
@@ -218,6 +285,7 @@ Proof.
   - cbn [flats]. rewrite flat_ife. cbn [app]. rewrite lastn_cons, <- app_assoc, lastn_app. cbn [app]. rewrite lastn_cons, lastn_app.
     destruct (lastn (flats r)); [exact IHr|].
     destruct (lastn (flats ebody)) eqn:E; [exact IHe|]. exfalso. apply (flats_nonempty ebody Hne'). apply lastn_none. exact E.
+  - cbn [flats]. rewrite flat_while. cbn [app]. rewrite lastn_cons. destruct (lastn (flats r)); [exact IHr | reflexivity].
 Qed.
 
 (* ---- collect_if: the statements strictly inside the then part ---- *)
@@ -311,17 +379,6 @@ Proof.
   rewrite (E D HD), (E R HR). reflexivity.
 Qed.
 
-(* ---- no loop statement in a flat list: the first step of condition_detect does nothing ---- *)
-Lemma map_result_ok (f : nat) (sts : list node) : Forall (fun st => st_ok st = true) sts ->
-  map_result (fun st => match st with
-                        | Stmt p (Repeat rp re c body ty a bb v s) =>
-                          let! body' := condition_detect f body (Some re) in Ok (Stmt p (Repeat rp re c body' ty a bb v s))
-                        | _ => Ok st end) sts = Ok sts.
-Proof.
-  induction 1 as [|st sts H _ IH]; cbn [map_result]; [reflexivity|].
-  rewrite IH. destruct st; try discriminate H. destruct st; try discriminate H; reflexivity.
-Qed.
-
 (* ---- no jump of the list leaves the loop: break_detect changes nothing ---- *)
 Definition le_opt (hi : Z) (e : option Z) : Prop := match e with Some x => hi <= x | None => True end.
 Lemma lt_opt_le hi e a : le_opt hi e -> a <= hi -> lt_opt e a = false.
@@ -339,7 +396,7 @@ Qed.
 
 (* ---- the scan that picks the jumps opening an if at this level ---- *)
 Definition top_jzs (l : list item) : list node :=
-  flat_map (fun i => match i with IIf p c a _ => [Jz p c a] | IIfE p c eb _ _ _ _ => [Jz p c eb] | IPlain _ => [] end) l.
+  flat_map (fun i => match i with IIf p c a _ => [Jz p c a] | IIfE p c eb _ _ _ _ => [Jz p c eb] | IPlain _ | IWhile _ _ _ _ _ _ => [] end) l.
 
 Definition scan_ok (lo : Z) (s : scan_state) : Prop :=
   match sc_addr s with Some x => x <= lo | None => True end /\ (sc_in_else s = true \/ noj_opt (sc_prev s)).
@@ -390,7 +447,8 @@ Lemma scan_flats e lo hi l : wp lo hi l -> le_opt hi e -> forall s, scan_ok lo s
   let s' := fold_left (scan_step e) (flats l) s in scan_ok hi s' /\ sc_jz s' = sc_jz s ++ top_jzs l.
 Proof.
   induction 1 as [lo hi H | lo hi st r Hp Hlo Hr IH | lo hi p c a body r Hlo Hne Hb _ Hr IHr
-                 | lo hi p c eb body jp je ebody r Hlo Hne Hne' Hb _ Hj He _ Hr IHr]; intros Hle s Hs.
+                 | lo hi p c eb body jp je ebody r Hlo Hne Hne' Hb _ Hj He _ Hr IHr
+                 | lo hi done ps pj c pe body r Hlo Hpj Hc Hb _ Hr IHr]; intros Hle s Hs.
   - cbn. split; [|rewrite app_nil_r; reflexivity]. destruct Hs as (H1 & H2). split; [|exact H2].
     destruct (sc_addr s); [lia|exact I].
   - cbn [flats flat_i app fold_left]. rewrite (scan_step_top e s st lo Hs Hlo).
@@ -444,6 +502,13 @@ Proof.
     match goal with |- context [fold_left (scan_step e) (flats r) ?st] => destruct (IHr Hle st) as [I1 I2] end.
     + split; [cbn [sc_addr]; lia | left; reflexivity].
     + split; [exact I1|]. rewrite I2. cbn [sc_jz top_jzs flat_map]. rewrite <- app_assoc. reflexivity.
+  - (* a loop is one statement that is no jump *)
+    pose proof (wp_le _ _ _ Hb) as Hbe. cbn [flats]. rewrite flat_while. cbn [app fold_left].
+    match goal with |- context [scan_step e s ?st] => rewrite (scan_step_top e s st lo Hs ltac:(cbn [pos_of loop_stmt]; lia)) end. cbn [loop_stmt].
+    cbn [top_jzs flat_map app]. destruct (settle_facts lo s Hs) as (K1 & K2 & K3 & K4).
+    destruct (IHr Hle (settle s)) as [I1 I2].
+    + split; [destruct (sc_addr (settle s)); [lia|exact I] | right; exact K2].
+    + split; [exact I1 | rewrite I2, K3; reflexivity].
 Qed.
 
 (* ---- condition_detect, one level ---- *)
@@ -507,12 +572,187 @@ Definition tail_ok (hi : Z) (tail : list node) : Prop := Forall (fun st => inert
 Lemma inert_ok st p : inert st = true -> st_ok st = true /\ not_jz_at p st = true.
 Proof. destruct st; try discriminate. destruct st; try discriminate. split; reflexivity. Qed.
 
+
+(* ---- the loops of a list, converted (through ifs; a converted loop is converted throughout) ---- *)
+Fixpoint mark_i (i : item) : item :=
+  let mk := fix mk (l : list item) : list item := match l with [] => [] | x :: r => mark_i x :: mk r end in
+  match i with
+  | IPlain st => IPlain st
+  | IIf p c a body => IIf p c a (mk body)
+  | IIfE p c eb body jp je ebody => IIfE p c eb (mk body) jp je (mk ebody)
+  | IWhile _ ps pj c pe body => IWhile true ps pj c pe body
+  end.
+Fixpoint marks (l : list item) : list item := match l with [] => [] | x :: r => mark_i x :: marks r end.
+
+Lemma mark_if p c a body : mark_i (IIf p c a body) = IIf p c a (marks body). Proof. reflexivity. Qed.
+Lemma mark_ife p c eb body jp je ebody : mark_i (IIfE p c eb body jp je ebody) = IIfE p c eb (marks body) jp je (marks ebody).
+Proof. reflexivity. Qed.
+
+Lemma marks_facts lo hi l : wp lo hi l ->
+  wp lo hi (marks l) /\ trees (marks l) = trees l /\ depths (marks l) = depths l /\ top_jzs (marks l) = top_jzs l /\ fins (marks l) = fins l.
+Proof.
+  induction 1 as [lo hi H | lo hi st r Hp Hlo Hr IH | lo hi p c a body r Hlo Hne Hb IHb Hr IHr
+                 | lo hi p c eb body jp je ebody r Hlo Hne Hne' Hb IHb Hj He IHe Hr IHr
+                 | lo hi done ps pj c pe body r Hlo Hpj Hc Hb IHb Hr IHr].
+  - repeat split; try reflexivity. apply wp_nil. exact H.
+  - destruct IH as (I1 & I2 & I3 & I4 & I5). cbn [marks mark_i trees tree_i fins fin_i]. rewrite depths_cons. cbn [depths].
+    repeat split; [apply wp_plain; assumption | rewrite I2; reflexivity | rewrite I3; reflexivity | exact I4 | rewrite I5; reflexivity].
+  - destruct IHb as (B1 & B2 & B3 & B4 & B5). destruct IHr as (R1 & R2 & R3 & R4 & R5).
+    cbn [marks]. rewrite mark_if. cbn [trees fins]. rewrite !tree_if, !fin_if, !depths_cons, !depth_if, B2, B3, B5, R2, R3, R5.
+    repeat split; [|cbn [top_jzs flat_map]; fold (top_jzs (marks r)); fold (top_jzs r); rewrite R4; reflexivity].
+    apply wp_if; try assumption. destruct body; [congruence|discriminate].
+  - destruct IHb as (B1 & B2 & B3 & B4 & B5). destruct IHe as (E1 & E2 & E3 & E4 & E5). destruct IHr as (R1 & R2 & R3 & R4 & R5).
+    cbn [marks]. rewrite mark_ife. cbn [trees fins]. rewrite !tree_ife, !fin_ife, !depths_cons, !depth_ife, B2, B3, B5, E2, E3, E5, R2, R3, R5.
+    repeat split; [|cbn [top_jzs flat_map]; fold (top_jzs (marks r)); fold (top_jzs r); rewrite R4; reflexivity].
+    apply wp_ife; try assumption; [destruct body; [congruence|discriminate] | destruct ebody; [congruence|discriminate]].
+  - destruct IHr as (R1 & R2 & R3 & R4 & R5).
+    cbn [marks mark_i trees fins]. rewrite !tree_while, !fin_while, !depths_cons, !depth_while, R2, R3, R5.
+    repeat split; [|cbn [top_jzs flat_map]; fold (top_jzs (marks r)); fold (top_jzs r); rewrite R4; reflexivity].
+    apply wp_while; assumption.
+Qed.
+
+(* all loops of this list level are converted *)
+Fixpoint lvl_done_i (i : item) : bool :=
+  let ld := fix ld (l : list item) : bool := match l with [] => true | x :: r => lvl_done_i x && ld r end in
+  match i with
+  | IPlain _ => true
+  | IIf _ _ _ body => ld body
+  | IIfE _ _ _ body _ _ ebody => ld body && ld ebody
+  | IWhile done _ _ _ _ _ => done
+  end.
+Fixpoint lvl_done (l : list item) : bool := match l with [] => true | x :: r => lvl_done_i x && lvl_done r end.
+Lemma lvl_done_if p c a body : lvl_done_i (IIf p c a body) = lvl_done body. Proof. reflexivity. Qed.
+Lemma lvl_done_ife p c eb body jp je ebody : lvl_done_i (IIfE p c eb body jp je ebody) = lvl_done body && lvl_done ebody.
+Proof. reflexivity. Qed.
+Lemma lvl_done_marks lo hi l : wp lo hi l -> lvl_done (marks l) = true.
+Proof.
+  induction 1 as [lo hi H | lo hi st r Hp Hlo Hr IH | lo hi p c a body r Hlo Hne Hb IHb Hr IHr
+                 | lo hi p c eb body jp je ebody r Hlo Hne Hne' Hb IHb Hj He IHe Hr IHr
+                 | lo hi done ps pj c pe body r Hlo Hpj Hc Hb IHb Hr IHr]; cbn [marks lvl_done].
+  - reflexivity.
+  - exact IH.
+  - rewrite mark_if, lvl_done_if, IHb, IHr. reflexivity.
+  - rewrite mark_ife, lvl_done_ife, IHb, IHe, IHr. reflexivity.
+  - exact IHr.
+Qed.
+
+(* ---- condition_detect leaves converted lists alone ---- *)
+Definition quiet (st : node) : bool :=
+  match st with
+  | Stmt _ (Binary _ _ _ _) | Stmt _ (Call _ _ _ _ _ _) | Stmt _ (IfThen _ _ _ _) | Stmt _ (Repeat _ _ _ _ _ _ _ _ _) => true
+  | _ => false
+  end.
+Definition if_stmt (st : node) : bool := match st with Stmt _ (IfThen _ _ _ _) => true | _ => false end.
+
+Lemma trees_quiet lo hi l : wp lo hi l -> Forall (fun st => quiet st = true) (trees l).
+Proof.
+  induction 1; cbn [trees]; constructor; try assumption; try reflexivity.
+  cbn [tree_i]. destruct st; try discriminate. destruct st; try discriminate; reflexivity.
+Qed.
+
+Lemma scan_quiet e L : Forall (fun st => quiet st = true) L ->
+  fold_left (scan_step e) L (Build_scan_state None None false []) = Build_scan_state None None false [].
+Proof.
+  induction 1 as [|st L H _ IH]; [reflexivity|]. cbn [fold_left].
+  assert (E : scan_step e (Build_scan_state None None false []) st = Build_scan_state None None false [])
+    by (destruct st; try discriminate H; destruct st; try discriminate H; reflexivity).
+  rewrite E. exact IH.
+Qed.
+
+Definition cd_map (f : nat) (st : node) : result node :=
+  match st with
+  | Stmt p (Repeat rp re c body ty a b v s) =>
+    let! body' := condition_detect f body (Some re) in Ok (Stmt p (Repeat rp re c body' ty a b v s))
+  | _ => Ok st
+  end.
+Lemma map_result_app {A B} (F : A -> result B) l1 l2 r1 r2 :
+  map_result F l1 = Ok r1 -> map_result F l2 = Ok r2 -> map_result F (l1 ++ l2) = Ok (r1 ++ r2).
+Proof.
+  revert r1. induction l1 as [|x l1 IH]; intros r1 H1 H2.
+  - cbn in H1. injection H1 as <-. exact H2.
+  - cbn [app map_result] in *. destruct (F x) as [y| |]; try discriminate H1. cbn [bind] in *.
+    destruct (map_result F l1) as [ys| |] eqn:E; try discriminate H1. cbn [bind] in *. injection H1 as <-.
+    rewrite (IH ys eq_refl H2). reflexivity.
+Qed.
+Lemma map_result_same {A} (F : A -> result A) l : Forall (fun x => F x = Ok x) l -> map_result F l = Ok l.
+Proof. induction 1 as [|x l H _ IH]; [reflexivity|]. cbn [map_result]. rewrite H, IH. reflexivity. Qed.
+
+Lemma condition_detect_unfold' f sts e :
+  condition_detect (S f) sts e = let! sts1 := map_result (cd_map f) sts in fold_left (cd_step f e) (scan_jz e sts1) (Ok sts1).
+Proof. reflexivity. Qed.
+
+Theorem cd_idem : forall f e l lo hi D0, wp lo hi l -> (depths l < f)%nat -> Forall (fun st => if_stmt st = true) D0 ->
+  condition_detect f (D0 ++ trees l) e = Ok (D0 ++ trees l).
+Proof.
+  induction f as [|f IHf]; intros e l lo hi D0 Hwp Hd HD; [lia|].
+  rewrite condition_detect_unfold'.
+  assert (Em : map_result (cd_map f) (D0 ++ trees l) = Ok (D0 ++ trees l)).
+  { apply map_result_same. apply Forall_app. split.
+    - eapply Forall_impl; [|exact HD]. intros x Hx. destruct x; try discriminate Hx. destruct x; try discriminate Hx. reflexivity.
+    - clear HD D0. revert Hd.
+      induction Hwp as [lo hi H | lo hi st r Hp Hlo Hr IH | lo hi p c a body r Hlo Hne Hb _ Hr IHr
+                       | lo hi p c eb body jp je ebody r Hlo Hne Hne' Hb _ Hj He _ Hr IHr
+                       | lo hi done ps pj c pe body r Hlo Hpj Hc Hb _ Hr IHr]; intros Hd; cbn [trees].
+      + constructor.
+      + rewrite depths_cons in Hd. constructor; [|apply IH; lia]. cbn [tree_i].
+        destruct st; try discriminate Hp. destruct st; try discriminate Hp; reflexivity.
+      + rewrite depths_cons in Hd. constructor; [reflexivity | apply IHr; lia].
+      + rewrite depths_cons in Hd. constructor; [reflexivity | apply IHr; lia].
+      + rewrite depths_cons, depth_while in Hd. constructor; [|apply IHr; lia].
+        rewrite tree_while. cbn [loop_stmt cd_map].
+        change (exit_if pj c :: trees body) with ([exit_if pj c] ++ trees body).
+        rewrite (IHf (Some pe) body (pj + 1) pe [exit_if pj c] Hb ltac:(lia)) by (constructor; [reflexivity|constructor]).
+        reflexivity. }
+  rewrite Em. cbn [bind]. unfold scan_jz. rewrite scan_quiet; [reflexivity|].
+  apply Forall_app. split.
+  - eapply Forall_impl; [|exact HD]. intros x Hx. destruct x; try discriminate Hx. destruct x; try discriminate Hx. reflexivity.
+  - exact (trees_quiet _ _ _ Hwp).
+Qed.
+
 Section Level.
   Variable f : nat.
-  Variable e : option Z.
-  Hypothesis IHf : forall l lo hi tail, wp lo hi l -> le_opt hi e -> tail_ok hi tail -> (depths l < f)%nat ->
+  Hypothesis IHcd : forall e l lo hi tail, wp lo hi l -> le_opt hi e -> tail_ok hi tail -> (depths l < f)%nat ->
     condition_detect f (flats l ++ tail) e = Ok (trees l ++ tail).
+  Hypothesis IHw : forall pj c pe body, wp (pj + 1) pe body -> (depths body < f)%nat ->
+    condition_detect f (Stmt pj (Jz pj c (pe + 2)) :: flats body) (Some pe) = Ok (exit_if pj c :: trees body).
 
+  (* the first step of the pass: every loop of the list is converted *)
+  Lemma map_loops : forall l lo hi, wp lo hi l -> (depths l < S f)%nat -> map_result (cd_map f) (flats l) = Ok (flats (marks l)).
+  Proof.
+    induction 1 as [lo hi H | lo hi st r Hp Hlo Hr IH | lo hi p c a body r Hlo Hne Hb IHb Hr IHr
+                   | lo hi p c eb body jp je ebody r Hlo Hne Hne' Hb IHb Hj He IHe Hr IHr
+                   | lo hi done ps pj c pe body r Hlo Hpj Hc Hb IHb Hr IHr]; intros Hd.
+    - reflexivity.
+    - rewrite depths_cons in Hd. cbn [flats marks mark_i flat_i]. apply (map_result_app _ [st] _ [st]); [|apply IH; lia].
+      cbn [map_result]. destruct st; try discriminate Hp. destruct st; try discriminate Hp; reflexivity.
+    - rewrite depths_cons, depth_if in Hd. cbn [flats marks]. rewrite mark_if, !flat_if.
+      change (Stmt p (Jz p c a) :: flats body) with ([Stmt p (Jz p c a)] ++ flats body).
+      change (Stmt p (Jz p c a) :: flats (marks body)) with ([Stmt p (Jz p c a)] ++ flats (marks body)).
+      apply map_result_app; [apply map_result_app; [reflexivity | apply IHb; lia] | apply IHr; lia].
+    - rewrite depths_cons, depth_ife in Hd. cbn [flats marks]. rewrite mark_ife, !flat_ife.
+      change (Stmt p (Jz p c eb) :: flats body ++ Stmt jp (Jump jp je) :: flats ebody)
+        with ([Stmt p (Jz p c eb)] ++ flats body ++ [Stmt jp (Jump jp je)] ++ flats ebody).
+      change (Stmt p (Jz p c eb) :: flats (marks body) ++ Stmt jp (Jump jp je) :: flats (marks ebody))
+        with ([Stmt p (Jz p c eb)] ++ flats (marks body) ++ [Stmt jp (Jump jp je)] ++ flats (marks ebody)).
+      apply map_result_app; [|apply IHr; lia].
+      apply map_result_app; [reflexivity|]. apply map_result_app; [apply IHb; lia|]. apply map_result_app; [reflexivity | apply IHe; lia].
+    - rewrite depths_cons, depth_while in Hd. cbn [flats marks mark_i]. rewrite !flat_while.
+      apply (map_result_app _ [_] _ [_]); [|apply IHr; lia]. cbn [map_result loop_stmt cd_map].
+      destruct done.
+      + change (exit_if pj c :: trees body) with ([exit_if pj c] ++ trees body).
+        rewrite (cd_idem f (Some pe) body (pj + 1) pe [exit_if pj c] Hb ltac:(lia)) by (constructor; [reflexivity|constructor]).
+        reflexivity.
+      + rewrite (IHw pj c pe body Hb ltac:(lia)). reflexivity.
+  Qed.
+
+  Lemma map_loops_tail l lo hi tail : wp lo hi l -> (depths l < S f)%nat -> tail_ok hi tail ->
+    map_result (cd_map f) (flats l ++ tail) = Ok (flats (marks l) ++ tail).
+  Proof.
+    intros Hwp Hd HT. apply map_result_app; [exact (map_loops l lo hi Hwp Hd)|].
+    apply map_result_same. eapply Forall_impl; [|exact HT]. intros x [Hx _]. destruct x; try discriminate Hx. destruct x; try discriminate Hx. reflexivity.
+  Qed.
+
+  Variable e : option Z.
   Definition before_ok (lo : Z) (st : node) : Prop := st_ok st = true /\ pos_of st < lo /\ jz_pos st.
 
   Lemma before_not_jz lo p st : before_ok lo st -> lo <= p -> not_jz_at p st = true.
@@ -537,17 +777,18 @@ Section Level.
         repeat split; [exact Hx1 | lia | apply (within_not_jz a hi p x Hx); left; lia].
   Qed.
 
-  Lemma fold_ifs : forall todo lo hi, wp lo hi todo -> le_opt hi e -> (depths todo < S f)%nat ->
+  Lemma fold_ifs : forall todo lo hi, wp lo hi todo -> le_opt hi e -> (depths todo < S f)%nat -> lvl_done todo = true ->
     forall D tail, Forall (before_ok lo) D -> tail_ok hi tail ->
     fold_left (cd_step f e) (top_jzs todo) (Ok (D ++ flats todo ++ tail)) = Ok (D ++ trees todo ++ tail).
   Proof.
     induction 1 as [lo hi H | lo hi st r Hp Hlo Hr IH | lo hi p c a body r Hlo Hne Hb _ Hr IHr
-                   | lo hi p c eb body jp je ebody r Hlo Hne Hne' Hb _ Hj He _ Hr IHr]; intros Hle Hd D tail HD HT.
+                   | lo hi p c eb body jp je ebody r Hlo Hne Hne' Hb _ Hj He _ Hr IHr
+                   | lo hi done ps pj c pe body r Hlo Hpj Hc Hb _ Hr IHr]; intros Hle Hd Hdone D tail HD HT.
     - reflexivity.
     - cbn [top_jzs flat_map app flats flat_i trees tree_i].
       change (D ++ st :: flats r ++ tail) with (D ++ [st] ++ flats r ++ tail).
       change (D ++ st :: trees r ++ tail) with (D ++ [st] ++ trees r ++ tail).
-      rewrite !(app_assoc D [st]). apply IH; [exact Hle | rewrite depths_cons in Hd; lia | | exact HT].
+      rewrite !(app_assoc D [st]). apply IH; [exact Hle | rewrite depths_cons in Hd; lia | exact Hdone | | exact HT].
       apply Forall_app. split.
       + eapply Forall_impl; [|exact HD]. intros x (H1 & H2 & H3). repeat split; try assumption. lia.
       + constructor; [|constructor]. repeat split; [apply plain_st_ok; exact Hp | lia | apply plain_jz_pos; exact Hp].
@@ -582,12 +823,13 @@ Section Level.
         rewrite Erem. cbn [bind].
         rewrite (break_detect_same (flats body) e hi Hle)
           by (eapply Forall_impl; [|exact HB]; intros x Hx; apply (within_weaken _ _ lo hi x Hx); lia).
-        pose proof (IHf body (p + 1) a [] Hb ltac:(destruct e; cbn [le_opt] in *; lia) (Forall_nil _) ltac:(lia)) as Eb.
+        pose proof (IHcd e body (p + 1) a [] Hb ltac:(destruct e; cbn [le_opt] in *; lia) (Forall_nil _) ltac:(lia)) as Eb.
         rewrite !app_nil_r in Eb. rewrite Eb. cbn [bind].
         rewrite last_case; [| apply trees_nonempty; exact Hne | exact (trees_noj _ _ _ Hb)].
         rewrite <- app_assoc. cbn [app]. rewrite replace_code_all_one; [| exact HDnj | exact HRall].
         rewrite <- app_assoc. reflexivity. }
-      rewrite Estep. rewrite IHr; [rewrite <- app_assoc; reflexivity | exact Hle | lia | | exact HT].
+      rewrite Estep. cbn [lvl_done] in Hdone. rewrite lvl_done_if in Hdone. apply andb_true_iff in Hdone. destruct Hdone as [_ Hdr].
+      rewrite IHr; [rewrite <- app_assoc; reflexivity | exact Hle | lia | exact Hdr | | exact HT].
       apply Forall_app. split.
       + eapply Forall_impl; [|exact HD]. intros x (H1 & H2 & H3). repeat split; try assumption. lia.
       + constructor; [|constructor]. repeat split; cbn [pos_of]; lia.
@@ -642,7 +884,7 @@ Section Level.
             - eapply Forall_impl; [|exact HB]. intros x Hx. apply (within_weaken _ _ lo hi x Hx); lia.
             - constructor; [cbn [jump_le J]; lia | constructor]. }
         assert (HTJ : tail_ok jp [J]) by (apply Forall_cons; [split; [reflexivity | cbn [pos_of J]; lia] | apply Forall_nil]).
-        rewrite (IHf body (p + 1) jp [J] Hb (Hle_e jp ltac:(lia)) HTJ ltac:(lia)).
+        rewrite (IHcd e body (p + 1) jp [J] Hb (Hle_e jp ltac:(lia)) HTJ ltac:(lia)).
         cbn [bind]. rewrite rev_app_distr. cbn [rev app J].
         rewrite (lt_opt_le hi e je Hle Hjh).
         (* the else part *)
@@ -665,43 +907,91 @@ Section Level.
         rewrite Erem2. cbn [bind].
         rewrite (break_detect_same (flats ebody) e hi Hle)
           by (eapply Forall_impl; [|exact HE]; intros x Hx; apply (within_weaken _ _ lo hi x Hx); lia).
-        pose proof (IHf ebody eb je [] He (Hle_e je Hjh) (Forall_nil _) ltac:(lia)) as Eb.
+        pose proof (IHcd e ebody eb je [] He (Hle_e je Hjh) (Forall_nil _) ltac:(lia)) as Eb.
         rewrite !app_nil_r in Eb. rewrite Eb. cbn [bind]. rewrite rev_involutive.
         rewrite <- app_assoc. cbn [app]. rewrite replace_code_all_one; [| exact HDnj | exact HRall].
         rewrite <- app_assoc. reflexivity. }
-      rewrite Estep. rewrite IHr; [rewrite <- app_assoc; reflexivity | exact Hle | lia | | exact HT].
+      rewrite Estep. cbn [lvl_done] in Hdone. rewrite lvl_done_ife in Hdone. apply andb_true_iff in Hdone. destruct Hdone as [_ Hdr].
+      rewrite IHr; [rewrite <- app_assoc; reflexivity | exact Hle | lia | exact Hdr | | exact HT].
       apply Forall_app. split.
       + eapply Forall_impl; [|exact HD]. intros x (H1 & H2 & H3). repeat split; try assumption. lia.
       + constructor; [|constructor]. repeat split; cbn [pos_of]; lia.
+    - (* a converted loop is one finished statement *)
+      pose proof (wp_le _ _ _ Hb) as Hbe. pose proof (wp_le _ _ _ Hr) as Hrh.
+      cbn [lvl_done lvl_done_i] in Hdone. apply andb_true_iff in Hdone. destruct Hdone as [Hd1 Hdr]. subst done.
+      cbn [top_jzs flat_map app flats trees]. rewrite flat_while, tree_while. cbn [app].
+      set (L := loop_stmt ps pe (true_at ps) (exit_if pj c :: trees body)).
+      change (D ++ L :: flats r ++ tail) with (D ++ [L] ++ flats r ++ tail).
+      change (D ++ L :: trees r ++ tail) with (D ++ [L] ++ trees r ++ tail).
+      rewrite !(app_assoc D [L]). rewrite depths_cons in Hd. apply IHr; [exact Hle | lia | exact Hdr | | exact HT].
+      apply Forall_app. split.
+      + eapply Forall_impl; [|exact HD]. intros x (H1 & H2 & H3). repeat split; try assumption. cbn [pos_of L loop_stmt]. lia.
+      + constructor; [|constructor]. repeat split; cbn [pos_of L loop_stmt]; lia.
   Qed.
 End Level.
 
-Theorem condition_detect_nest : forall f e l lo hi tail, wp lo hi l -> le_opt hi e -> tail_ok hi tail -> (depths l < f)%nat ->
+(* ---- condition_detect on lists (CD) and on raw loop bodies (W), together by induction on the fuel ---- *)
+Definition CD (f : nat) : Prop := forall e l lo hi tail, wp lo hi l -> le_opt hi e -> tail_ok hi tail -> (depths l < f)%nat ->
   condition_detect f (flats l ++ tail) e = Ok (trees l ++ tail).
+Definition WB (f : nat) : Prop := forall pj c pe body, wp (pj + 1) pe body -> (depths body < f)%nat ->
+  condition_detect f (Stmt pj (Jz pj c (pe + 2)) :: flats body) (Some pe) = Ok (exit_if pj c :: trees body).
+
+Lemma scan_tail e : forall t lo' s, tail_ok lo' t -> scan_ok lo' s -> sc_jz (fold_left (scan_step e) t s) = sc_jz s.
 Proof.
-  induction f as [|f IHf]; intros e l lo hi tail Hwp Hle HT Hd; [lia|].
-  rewrite condition_detect_unfold.
-  rewrite map_result_ok.
-  2:{ apply Forall_app. split.
-      - eapply Forall_impl; [|exact (flats_within _ _ _ Hwp)]. intros x Hx. apply Hx.
-      - eapply Forall_impl; [|exact HT]. intros x [Hx _]. apply (inert_ok x 0 Hx). }
-  cbn [bind]. unfold scan_jz. rewrite fold_left_app.
-  destruct (scan_flats e lo hi l Hwp Hle (Build_scan_state None None false []) ltac:(split; [exact I | right; exact I])) as [Hok Ej].
-  set (s1 := fold_left (scan_step e) (flats l) (Build_scan_state None None false [])) in *.
-  (* the inert tail adds no jump *)
-  assert (Et : forall t lo' s, tail_ok lo' t -> scan_ok lo' s -> sc_jz (fold_left (scan_step e) t s) = sc_jz s).
-  { induction t as [|x t IHt]; intros lo' s Ht Hs; [reflexivity|]. inversion Ht as [|? ? [Hx1 Hx2] Ht']; subst.
-    cbn [fold_left]. rewrite (scan_step_top e s x lo' Hs Hx2).
-    assert (Ex : match x with
-                 | Stmt _ (Jz p c a) => Build_scan_state (if lt_opt e a then None else Some a) (sc_prev (settle s)) false (sc_jz s ++ [Jz p c a])
-                 | _ => settle s end = settle s) by (destruct x; try discriminate Hx1; destruct x; try discriminate Hx1; reflexivity).
-    rewrite Ex. destruct (settle_facts lo' s Hs) as (K1 & K2 & K3 & K4).
-    rewrite (IHt lo' (settle s) Ht'); [exact K3|]. split; [exact K4 | right; exact K2]. }
-  rewrite (Et tail hi s1 HT Hok), Ej. cbn [sc_jz app].
-  exact (fold_ifs f e (fun l lo hi tail => IHf e l lo hi tail) l lo hi Hwp Hle Hd [] tail (Forall_nil _) HT).
+  induction t as [|x t IHt]; intros lo' s Ht Hs; [reflexivity|]. inversion Ht as [|? ? [Hx1 Hx2] Ht']; subst.
+  cbn [fold_left]. rewrite (scan_step_top e s x lo' Hs Hx2).
+  assert (Ex : match x with
+               | Stmt _ (Jz p c a) => Build_scan_state (if lt_opt e a then None else Some a) (sc_prev (settle s)) false (sc_jz s ++ [Jz p c a])
+               | _ => settle s end = settle s) by (destruct x; try discriminate Hx1; destruct x; try discriminate Hx1; reflexivity).
+  rewrite Ex. destruct (settle_facts lo' s Hs) as (K1 & K2 & K3 & K4).
+  rewrite (IHt lo' (settle s) Ht'); [exact K3|]. split; [exact K4 | right; exact K2].
 Qed.
 
-(* ---- loop_detect leaves the rebuilt trees alone (there is no loop in them) ---- *)
+Theorem cd_all : forall f, CD f /\ WB f.
+Proof.
+  induction f as [|f [IHcd IHw]]; [split; [intros e l lo hi tail _ _ _ Hd | intros pj c pe body _ Hd]; lia|].
+  split.
+  - (* a list *)
+    intros e l lo hi tail Hwp Hle HT Hd.
+    rewrite condition_detect_unfold'. rewrite (map_loops_tail f IHcd IHw l lo hi tail Hwp Hd HT). cbn [bind].
+    destruct (marks_facts lo hi l Hwp) as (Hwm & Etr & Edp & Ejz & _).
+    unfold scan_jz. rewrite fold_left_app.
+    destruct (scan_flats e lo hi (marks l) Hwm Hle (Build_scan_state None None false []) ltac:(split; [exact I | right; exact I])) as [Hok Ej].
+    rewrite (scan_tail e tail hi _ HT Hok), Ej. cbn [sc_jz app]. rewrite <- Etr.
+    exact (fold_ifs f IHcd IHw e (marks l) lo hi Hwm Hle ltac:(lia) (lvl_done_marks lo hi l Hwp) [] tail (Forall_nil _) HT).
+  - (* the body of a loop: the jump of the loop condition first *)
+    intros pj c pe body Hwp Hd.
+    pose proof (wp_le _ _ _ Hwp) as Hbe.
+    rewrite condition_detect_unfold'.
+    change (Stmt pj (Jz pj c (pe + 2)) :: flats body) with ([Stmt pj (Jz pj c (pe + 2))] ++ flats body).
+    rewrite (map_result_app (cd_map f) [Stmt pj (Jz pj c (pe + 2))] (flats body) [Stmt pj (Jz pj c (pe + 2))] (flats (marks body)) eq_refl
+                            (map_loops f IHcd IHw body (pj + 1) pe Hwp Hd)).
+    cbn [bind]. destruct (marks_facts (pj + 1) pe body Hwp) as (Hwm & Etr & Edp & Ejz & _).
+    unfold scan_jz. cbn [app fold_left].
+    assert (E1 : scan_step (Some pe) (Build_scan_state None None false []) (Stmt pj (Jz pj c (pe + 2)))
+                 = Build_scan_state None None false [Jz pj c (pe + 2)]).
+    { unfold scan_step. cbn [sc_addr sc_in_else sc_prev sc_jz lt_opt].
+      replace (pe <? pe + 2) with true by (symmetry; apply Z.ltb_lt; lia). reflexivity. }
+    rewrite E1.
+    destruct (scan_flats (Some pe) (pj + 1) pe (marks body) Hwm ltac:(cbn [le_opt]; lia) (Build_scan_state None None false [Jz pj c (pe + 2)])
+                         ltac:(split; [exact I | right; exact I])) as [_ Ej].
+    rewrite Ej. cbn [sc_jz app fold_left].
+    (* the loop condition becomes  if not cond then exit repeat *)
+    assert (E2 : cd_step f (Some pe) (Ok (Stmt pj (Jz pj c (pe + 2)) :: flats (marks body))) (Jz pj c (pe + 2))
+                 = Ok ([exit_if pj c] ++ flats (marks body) ++ [])).
+    { unfold cd_step. cbn [bind lt_opt]. replace (pe <? pe + 2) with true by (symmetry; apply Z.ltb_lt; lia).
+      cbn [replace_code_first code_of]. rewrite node_eq_jz_refl. rewrite app_nil_r. reflexivity. }
+    rewrite E2.
+    rewrite (fold_ifs f IHcd IHw (Some pe) (marks body) (pj + 1) pe Hwm ltac:(cbn [le_opt]; lia) ltac:(lia) (lvl_done_marks _ _ _ Hwp)
+                      [exit_if pj c] [] ltac:(constructor; [repeat split; cbn [pos_of exit_if]; lia | constructor]) (Forall_nil _)).
+    rewrite app_nil_r, Etr. reflexivity.
+Qed.
+
+Theorem condition_detect_nest f e l lo hi tail : wp lo hi l -> le_opt hi e -> tail_ok hi tail -> (depths l < f)%nat ->
+  condition_detect f (flats l ++ tail) e = Ok (trees l ++ tail).
+Proof. exact (proj1 (cd_all f) e l lo hi tail). Qed.
+
+(* ---- loop_detect: ifs are walked through, a converted loop gets its while condition ---- *)
 Definition ld_step (f : nat) (acc : result (list node * option node * list node)) (st : node) :
   result (list node * option node * list node) :=
   let! (out, prev, rm) := acc in
@@ -742,31 +1032,58 @@ Proof. reflexivity. Qed.
 Lemma loop_detect_nil f : loop_detect (S f) [] = Ok [].
 Proof. reflexivity. Qed.
 
-Theorem loop_detect_nest : forall f l lo hi, wp lo hi l -> (depths l < f)%nat -> loop_detect (S f) (trees l) = Ok (trees l).
+Lemma is_repeat_with_no c body prev : wcond_ok c = true -> is_repeat_with c body prev = false.
+Proof.
+  intros Hc. unfold is_repeat_with. destruct prev as [pv|]; [|reflexivity].
+  destruct pv; try reflexivity. destruct pv; try reflexivity.
+  destruct c; try (apply andb_false_r).
+  cbn [wcond_ok] in Hc. apply andb_true_iff in Hc. destruct Hc as [Hc _]. apply andb_true_iff in Hc. destruct Hc as [H1 H2].
+  apply negb_true_iff in H1. apply negb_true_iff in H2. rewrite H1, H2. cbn [andb orb].
+  destruct (rev body) as [|y ys]; [rewrite !andb_false_r; reflexivity|].
+  destruct y; try (rewrite !andb_false_r; reflexivity). destruct y; try (rewrite !andb_false_r; reflexivity).
+  destruct y2; rewrite ?andb_false_r; reflexivity.
+Qed.
+Lemma is_repeat_with_in_list_no c body : wcond_ok c = true -> is_repeat_with_in_list c body = Ok None.
+Proof.
+  intros Hc. unfold is_repeat_with_in_list. destruct c; try reflexivity.
+  cbn [wcond_ok] in Hc. apply andb_true_iff in Hc. destruct Hc as [_ Hc].
+  destruct c1; try reflexivity. destruct c2; try reflexivity. rewrite Hc. reflexivity.
+Qed.
+
+Theorem loop_detect_nest : forall f l lo hi, wp lo hi l -> (depths l < f)%nat -> loop_detect (S f) (trees l) = Ok (fins l).
 Proof.
   induction f as [|f IHf]; intros l lo hi Hwp Hd; [lia|].
   rewrite loop_detect_unfold.
   assert (E : forall todo lo hi, wp lo hi todo -> (depths todo < S f)%nat -> forall out prev,
-             exists prev', fold_left (ld_step (S f)) (trees todo) (Ok (out, prev, [])) = Ok (out ++ trees todo, prev', [])).
+             exists prev', fold_left (ld_step (S f)) (trees todo) (Ok (out, prev, [])) = Ok (out ++ fins todo, prev', [])).
   { clear l lo hi Hwp Hd.
     induction 1 as [lo hi H | lo hi st r Hp Hlo Hr IH | lo hi p c a body r Hlo Hne Hb _ Hr IHr
-                   | lo hi p c eb body jp je ebody r Hlo Hne Hne' Hb _ Hj He _ Hr IHr]; intros Hd out prev.
+                   | lo hi p c eb body jp je ebody r Hlo Hne Hne' Hb _ Hj He _ Hr IHr
+                   | lo hi done ps pj c pe body r Hlo Hpj Hc Hb _ Hr IHr]; intros Hd out prev.
     - exists prev. rewrite app_nil_r. reflexivity.
-    - cbn [trees tree_i fold_left]. rewrite depths_cons in Hd.
+    - cbn [trees tree_i fins fin_i fold_left]. rewrite depths_cons in Hd.
       assert (Es : ld_step (S f) (Ok (out, prev, [])) st = Ok (out ++ [st], Some st, []))
         by (destruct st; try discriminate Hp; destruct st; try discriminate Hp; reflexivity).
       rewrite Es. destruct (IH ltac:(lia) (out ++ [st]) (Some st)) as [p' E']. exists p'. rewrite E', <- app_assoc. reflexivity.
-    - cbn [trees fold_left]. rewrite tree_if. rewrite depths_cons, depth_if in Hd.
+    - cbn [trees fins fold_left]. rewrite tree_if, fin_if. rewrite depths_cons, depth_if in Hd.
       assert (Es : ld_step (S f) (Ok (out, prev, [])) (Stmt p (IfThen p c (trees body) []))
-                   = Ok (out ++ [Stmt p (IfThen p c (trees body) [])], Some (Stmt p (IfThen p c (trees body) [])), [])).
+                   = Ok (out ++ [Stmt p (IfThen p c (fins body) [])], Some (Stmt p (IfThen p c (fins body) [])), [])).
       { cbn [ld_step bind]. rewrite (IHf body (p + 1) a Hb) by lia. cbn [bind]. rewrite loop_detect_nil. reflexivity. }
-      rewrite Es. destruct (IHr ltac:(lia) (out ++ [Stmt p (IfThen p c (trees body) [])]) (Some (Stmt p (IfThen p c (trees body) [])))) as [p' E'].
+      rewrite Es. destruct (IHr ltac:(lia) (out ++ [Stmt p (IfThen p c (fins body) [])]) (Some (Stmt p (IfThen p c (fins body) [])))) as [p' E'].
       exists p'. rewrite E', <- app_assoc. reflexivity.
-    - cbn [trees fold_left]. rewrite tree_ife. rewrite depths_cons, depth_ife in Hd.
+    - cbn [trees fins fold_left]. rewrite tree_ife, fin_ife. rewrite depths_cons, depth_ife in Hd.
       assert (Es : ld_step (S f) (Ok (out, prev, [])) (Stmt p (IfThen p c (trees body) (trees ebody)))
-                   = Ok (out ++ [Stmt p (IfThen p c (trees body) (trees ebody))], Some (Stmt p (IfThen p c (trees body) (trees ebody))), [])).
+                   = Ok (out ++ [Stmt p (IfThen p c (fins body) (fins ebody))], Some (Stmt p (IfThen p c (fins body) (fins ebody))), [])).
       { cbn [ld_step bind]. rewrite (IHf body (p + 1) jp Hb) by lia. cbn [bind]. rewrite (IHf ebody eb je He) by lia. reflexivity. }
-      rewrite Es. destruct (IHr ltac:(lia) (out ++ [Stmt p (IfThen p c (trees body) (trees ebody))]) (Some (Stmt p (IfThen p c (trees body) (trees ebody))))) as [p' E'].
+      rewrite Es. destruct (IHr ltac:(lia) (out ++ [Stmt p (IfThen p c (fins body) (fins ebody))]) (Some (Stmt p (IfThen p c (fins body) (fins ebody))))) as [p' E'].
+      exists p'. rewrite E', <- app_assoc. reflexivity.
+    - cbn [trees fins fold_left]. rewrite tree_while, fin_while. rewrite depths_cons, depth_while in Hd.
+      assert (Es : ld_step (S f) (Ok (out, prev, [])) (loop_stmt ps pe (true_at ps) (exit_if pj c :: trees body))
+                   = Ok (out ++ [loop_stmt ps pe c (fins body)], Some (loop_stmt ps pe c (fins body)), [])).
+      { unfold loop_stmt, exit_if. cbn [ld_step bind is_repeat_while]. change (String.eqb "not" "not") with true. cbn [tl].
+        rewrite (is_repeat_with_no c (trees body) prev Hc). rewrite (is_repeat_with_in_list_no c (trees body) Hc). cbn [bind].
+        rewrite (IHf body (pj + 1) pe Hb) by lia. reflexivity. }
+      rewrite Es. destruct (IHr ltac:(lia) (out ++ [loop_stmt ps pe c (fins body)]) (Some (loop_stmt ps pe c (fins body)))) as [p' E'].
       exists p'. rewrite E', <- app_assoc. reflexivity. }
   destruct (E l lo hi Hwp Hd [] None) as [p' E']. rewrite E'. reflexivity.
 Qed.
@@ -779,7 +1096,8 @@ Proof. induction l1; cbn [fold_right]; [reflexivity | rewrite IHl1; lia]. Qed.
 Lemma depth_le_count : forall l lo hi, wp lo hi l -> (depths l <= stmts_count (flats l))%nat /\ (depths l <= stmts_count (trees l))%nat.
 Proof.
   induction 1 as [lo hi H | lo hi st r Hp Hlo Hr IH | lo hi p c a body r Hlo Hne Hb IHb Hr IHr
-                 | lo hi p c eb body jp je ebody r Hlo Hne Hne' Hb IHb Hj He IHe Hr IHr].
+                 | lo hi p c eb body jp je ebody r Hlo Hne Hne' Hb IHb Hj He IHe Hr IHr
+                 | lo hi done ps pj c pe body r Hlo Hpj Hc Hb IHb Hr IHr].
   - split; reflexivity.
   - destruct IH as [I1 I2]. unfold stmts_count in *. cbn [flats flat_i trees tree_i app depths depth_i fold_right]. rewrite Nat.max_0_l. split; lia.
   - destruct IHb as [B1 B2]. destruct IHr as [R1 R2]. rewrite depths_cons, depth_if. cbn [flats trees]. rewrite flat_if, tree_if.
@@ -788,9 +1106,11 @@ Proof.
   - destruct IHb as [B1 B2]. destruct IHe as [E1 E2]. destruct IHr as [R1 R2]. rewrite depths_cons, depth_ife. cbn [flats trees]. rewrite flat_ife, tree_ife.
     unfold stmts_count in *. cbn [app fold_right stmt_count]. rewrite !fold_right_app. cbn [fold_right stmt_count].
     rewrite (count_split (flats body)), (count_split (flats ebody)). split; lia.
+  - destruct IHb as [B1 B2]. destruct IHr as [R1 R2]. rewrite depths_cons, depth_while. cbn [flats trees]. rewrite flat_while, tree_while.
+    unfold stmts_count, loop_stmt, exit_if in *. cbn [app fold_right stmt_count]. destruct done; cbn [fold_right stmt_count]; split; lia.
 Qed.
 
-Theorem detect_nest l lo hi : wp lo hi l -> detect (flats l) = Ok (trees l).
+Theorem detect_nest l lo hi : wp lo hi l -> detect (flats l) = Ok (fins l).
 Proof.
   intros Hwp. unfold detect. destruct (depth_le_count l lo hi Hwp) as [H1 H2].
   pose proof (condition_detect_nest (S (S (stmts_count (flats l)))) None l lo hi [] Hwp I (Forall_nil _) ltac:(lia)) as E.
